@@ -79,6 +79,10 @@ SAFE_PATTERNS = [
     re.compile(r"core::num::<impl [iu](8|16|32|64|128|size)>::wrapping_(add|sub|neg|mul|shl|shr)"),
     re.compile(r"core::num::<impl [iu](8|16|32|64|128|size)>::(saturating|checked|overflowing)_(add|sub|mul|neg)"),
     re.compile(r"core::num::<impl [iu](8|16|32|64|128|size)>::(count_ones|count_zeros|leading_zeros|trailing_zeros|min|max)"),
+    re.compile(r"core::num::<impl [iu](8|16|32|64|128|size)>::(from|to)_(be|le|ne)_bytes"),
+    re.compile(r"core::num::<impl [iu](8|16|32|64|128|size)>::(swap_bytes|reverse_bits|rotate_left|rotate_right|to_be|to_le|from_be|from_le|abs_diff|unsigned_abs|signum|is_positive|is_negative|is_power_of_two)"),
+    # lossless integer conversions (From exists only where no value is lost)
+    re.compile(r"core::convert::num::<impl core::convert::From<([iu](8|16|32|64|128)|bool)> for [iu](8|16|32|64|128|size)>::from"),
 ]
 
 
@@ -234,6 +238,20 @@ def call_interval(t, iv, b, depth):
             return (cap, cap)
     if callee == "core::char::methods::<impl char>::len_utf8":
         return (1, 4)
+    if re.fullmatch(r"core::num::<impl u(8|16|32|64|128|size)>::from_(be|le)_bytes", callee) and args and args[0].op == "array":
+        bs = list(args[0].args[0])
+        if callee.endswith("from_be_bytes"):
+            bs = bs[::-1]
+        hi = 0
+        for k, bt in enumerate(bs):
+            bi = iv.interval(bt, b, depth + 1)
+            if bi is None or bi[0] < 0 or bi[1] > 255:
+                bi = (0, 255)
+            hi += bi[1] << (8 * k)
+        return (0, hi)
+    if re.fullmatch(r"core::num::<impl [iu](8|16|32|64|128|size)>::count_(ones|zeros)", callee):
+        ty0 = ty_of(args[0]) if args else None
+        return (0, ty0["bits"]) if ty0 and "bits" in ty0 else (0, 128)
     if callee in ("<core::iter::Filter<I, P> as core::iter::Iterator>::count", "<core::str::Chars as core::iter::Iterator>::count",
                   "<core::str::Bytes as core::iter::ExactSizeIterator>::len"):
         return (0, ISIZE_MAX)
